@@ -113,6 +113,20 @@ def mapSliceFind : List (GoVal × GoVal) → GoVal → LRes
     | some false => mapSliceFind r e
     | none => mapSliceFind r e        -- `safeEqual`: operands of an uncomparable type are unequal
 
+/-- a name `reflect`'s `MethodByName` can find is exported: it starts with an upper-case letter (every method of
+    `time.Time` and `values.Range` starts with an ASCII one) -/
+def exportedName : Bytes → Bool
+  | b :: _ => 65 ≤ b.toNat && b.toNat ≤ 90
+  | [] => false
+
+/-- a property of a `time.Time` or `values.Range` (or a pointer to one): these are structs without exported fields,
+    so every name reads as nil, except the name of a METHOD, which `structValue.PropertyValue` invokes
+    (`{{ t.Year }}`, `{{ (1..3).Len }}`). The methods of Go's `time.Time` are outside the model. -/
+def methodOnly (name : GoVal) : LRes :=
+  match name with
+  | .str s => if exportedName s then .unmodelled "method of time.Time / values.Range invoked as a property" else .val .nil
+  | _ => .val .nil
+
 /-- `IndexValue` -/
 def indexValue (recv idx : GoVal) : LRes :=
   let i := idx.unwrap
@@ -136,7 +150,7 @@ def indexValue (recv idx : GoVal) : LRes :=
     (match i with
      | .str s => .val ((lookupFields fs s).getD .nil)
      | _ => .val .nil)
-  | .range _ _ | .time _ | .ptr (.range _ _) | .ptr (.time _) => .val .nil   -- structs without exported fields
+  | .range _ _ | .time _ | .ptr (.range _ _) | .ptr (.time _) => methodOnly i   -- structs without exported fields
   | _ => .val .nil
 where
   indexList (xs : List GoVal) (i : GoVal) : LRes :=
@@ -173,6 +187,7 @@ def propertyValue (recv : GoVal) (name : Bytes) : LRes :=
      | .val v => if (match v with | .nil | .nilPtr => true | _ => false) && name == sizeKey then .val (.int .int kvs.length) else .val v
      | r => r)
   | .struct fs | .ptr (.struct fs) => .val ((lookupFields fs name).getD .nil)
+  | .range _ _ | .time _ | .ptr (.range _ _) | .ptr (.time _) => methodOnly (.str name)
   | _ => .val .nil
 where
   propList (xs : List GoVal) : LRes :=
